@@ -352,3 +352,19 @@ prop(
                  "races are judged by the number of winners (exactly one without a holder, none with one); which attempt wins is not compared"],
     explanation="a lock protocol model (holder, content); theorems for every history: at most one live handle, a refused open is inert, release re-enables opening",
 )
+
+prop(
+    id="C05", module="Properties.C05", vfile="Properties/C05.v", level="proof", subcmd="c05",
+    theorems=["C05_read_is_linearizable", "C05_reads_never_go_back"],
+    counts={"quick": 320, "thorough": 20000, "search": 1600},
+    rule="runs with the four background workers enabled: one writer thread commits 120-400 transactions, each writing all 6 keys of one of 11-14 groups (in a hash column whose keys share one index page - "
+         "so the index grows during the run - and, in half of the runs, also in a btree column) with its version number and a value whose length depends on the version (16 bytes to 40000: entries move "
+         "between size tiers and become multi-part), pausing 0-300 us after a quarter of the commits; 2-4 reader threads read random keys in a loop; every read is judged against the writer's 'started' and "
+         "'completed' marks taken around it and against what the reader saw before. A run is non-trivial when some read returned a commit that was still in flight (started, not yet returned)",
+    assumptions=["the model's actions (commit, move into the log overlay, remove from the commit overlay, one table write, drop from the log overlay) are atomic; byte-level tearing of a table entry that is "
+                 "rewritten while a reader passes from the log overlay to the tables, and the memory ordering of mmap stores, are outside the model",
+                 "a transaction writes each key at most once (a duplicate key would be visible half-way only in that same window)",
+                 "schedules of the real threads are sampled by the operating system, not enumerated"],
+    explanation="a reader that looks into the three layers at three different moments of any interleaving returns a value of the specification at a moment inside the read; ordered reads have ordered moments; "
+                "tie: stress runs judged by the property text, final state compared with the model's specification function",
+)
